@@ -106,7 +106,7 @@ def compile_property(prop: str) -> dict:
     # only `Theorem ... Proof. exact <lemma>. Qed.` is allowed in a property file
     bodies = re.findall(r"Proof\.(.*?)Qed\.", text, flags=re.S)
     for b in bodies:
-        if not re.fullmatch(r"\s*exact\s+[@\w.]+\s*\.\s*", b):
+        if not re.fullmatch(r"\s*exact\s+[@\w.']+\s*\.\s*", b):
             res["error"] = f"property file proof is not a bare `exact lemma.`: {b.strip()[:80]}"
             return res
     if len(bodies) != len(thms) or re.search(r"\b(Lemma|Definition|Fixpoint|Example|Instance)\b", text):
